@@ -108,8 +108,9 @@ pub fn sweep() -> Tally {
         .map(|bt| {
             let mut t = Tally::default();
             for it in &items {
-                for ctx in 0..2 {
-                    let src = if ctx == 0 { format!("#[{it}] struct S;") } else { format!("#[w({it}, z)] struct S;") };
+                for ctx in 0..3 {
+                    // ctx 2: the lone item with its value inside an invisible group
+                    let src = if ctx != 1 { format!("#[{it}] struct S;") } else { format!("#[w({it}, z)] struct S;") };
                     t.evaluations += 1;
                     t.hit("builtin_inputs");
                     let di: syn::DeriveInput = match syn::parse_str(&src) {
@@ -119,7 +120,15 @@ pub fn sweep() -> Tally {
                             continue;
                         }
                     };
-                    let (meta, nested) = if ctx == 0 {
+                    let (meta, nested) = if ctx == 2 {
+                        match di.attrs[0].meta.clone() {
+                            syn::Meta::NameValue(mut nv) => {
+                                nv.value = syn::Expr::Group(syn::ExprGroup { attrs: vec![], group_token: Default::default(), expr: Box::new(nv.value) });
+                                (syn::Meta::NameValue(nv), None)
+                            }
+                            _ => continue,
+                        }
+                    } else if ctx == 0 {
                         (di.attrs[0].meta.clone(), None)
                     } else {
                         let list = di.attrs[0].meta.require_list().unwrap();
@@ -146,7 +155,7 @@ pub fn sweep() -> Tally {
                         Err(p) => t.violate(Violation {
                             key: format!("C07 builtin target={} src=`{src}` :: panicked: {p}", bt.name),
                             what: format!("{} <- `{src}`: panicked: {p}", bt.name),
-                            case: json!({"engine": "builtin", "target": bt.name, "src": src}),
+                            case: json!({"engine": "builtin", "target": bt.name, "src": src, "ctx": ctx}),
                             detail: json!({}),
                         }),
                     }
@@ -170,7 +179,13 @@ pub fn replay(case: &serde_json::Value) -> bool {
             _ => unreachable!(),
         }
     } else {
-        di.attrs[0].meta.clone()
+        match (di.attrs[0].meta.clone(), case["ctx"].as_u64()) {
+            (syn::Meta::NameValue(mut nv), Some(2)) => {
+                nv.value = syn::Expr::Group(syn::ExprGroup { attrs: vec![], group_token: Default::default(), expr: Box::new(nv.value) });
+                syn::Meta::NameValue(nv)
+            }
+            (m, _) => m,
+        }
     };
     match (bt.run)(&meta, None) {
         Ok(r) => {
